@@ -3,7 +3,7 @@
    Used by C01 (replies + contents), C02 (evictions, L1 subset of L2), C09 (deadlines). *)
 From Coq Require Import String.
 From Rend Require Import base.Bytes base.Harness gen.Consts_gen spec.MapSpec orca.Types handlers.Std
-  orca.Orcas proto.Resp proto.Frames proto.FramesSpec.
+  orca.Orcas proto.Resp proto.Frames proto.FramesSpec handlers.ChunkFmt handlers.Chunked.
 Open Scope N_scope.
 
 Inductive orcakind := KL1Only | KL1L2 | KL1L2Batch.
@@ -235,3 +235,65 @@ Fixpoint debug01 (mode : N) (p : proto) (two : bool) (keys : list bytes) (steps 
   end.
 Definition dbg01_case (mode : N) (c : case01) :=
   debug01 mode (k_proto c) (k_two c) (k_keys c) (k_steps c) empty_store empty_store empty_store 0.
+
+(* ---- full-stack runs with the CHUNKED handler as L1 (real clock): no step-by-step model here
+   (tokens and clock readings are internal to the handler); the single-map oracle is applied to
+   the replies, to L2, and to L1 seen through the chunk abstraction (abs_entry). ---- *)
+Fixpoint run01c (p : proto) (two : bool) (keys : list bytes) (steps : list step01) (s : store) : N :=
+  match steps with
+  | [] => 0
+  | st :: rest =>
+      let now := s_now st in
+      let r := s_req st in
+      let '(s', o) := match cmd_of r with Some c => spec_step s now c | None => (s, OOk) end in
+      let d1 := of_dump (s_l1 st) in
+      let d2 := of_dump (s_l2 st) in
+      let same := fun (a b : entry) => bytes_eqb (e_data a) (e_data b) && (e_flags a =? e_flags b) in
+      let ok :=
+        negb (s_closed st && negb (match r with RQuit _ _ => true | _ => false end)) &&
+        oracle_reply p s now r o (s_reply st) &&
+        (if two then
+           contents_ok now keys s' d2 &&
+           forallb (fun k => match abs_entry d1 now k with
+                             | None => true
+                             | Some e1 => match live now d2 k with Some e2 => same e1 e2 | None => false end
+                             end) keys
+         else
+           forallb (fun k => match live now s' k, abs_entry d1 now k with
+                             | Some a, Some b => same a b
+                             | None, None => true
+                             | _, _ => false end) keys) in
+      if ok then run01c p two keys rest s' else 2
+  end.
+Definition check01c (c : case01) : N := run01c (k_proto c) (k_two c) (k_keys c) (k_steps c) empty_store.
+
+(* per-step verdicts of run01c, for replays: (step index, not-closed, reply ok, L2 ok, L1 ok) of the first failing step *)
+Fixpoint debug01c (p : proto) (two : bool) (keys : list bytes) (steps : list step01) (s : store) (i : N)
+  : option (N * bool * bool * bool * bool * list (bytes * option (N * N) * option (N * N) * option (N * N))) :=
+  match steps with
+  | [] => None
+  | st :: rest =>
+      let now := s_now st in
+      let r := s_req st in
+      let '(s', o) := match cmd_of r with Some c => spec_step s now c | None => (s, OOk) end in
+      let d1 := of_dump (s_l1 st) in
+      let d2 := of_dump (s_l2 st) in
+      let same := fun (a b : entry) => bytes_eqb (e_data a) (e_data b) && (e_flags a =? e_flags b) in
+      let a := negb (s_closed st && negb (match r with RQuit _ _ => true | _ => false end)) in
+      let b := oracle_reply p s now r o (s_reply st) in
+      let c := if two then contents_ok now keys s' d2 else true in
+      let d := if two then
+           forallb (fun k => match abs_entry d1 now k with
+                             | None => true
+                             | Some e1 => match live now d2 k with Some e2 => same e1 e2 | None => false end
+                             end) keys
+         else
+           forallb (fun k => match live now s' k, abs_entry d1 now k with
+                             | Some a, Some b => same a b
+                             | None, None => true
+                             | _, _ => false end) keys in
+      let sz := fun (e : option entry) => match e with Some e => Some (len (e_data e), e_flags e) | None => None end in
+      if a && b && c && d then debug01c p two keys rest s' (i + 1)
+      else Some (i, a, b, c, d, map (fun k => (k, sz (live now s' k), sz (abs_entry d1 now k), sz (live now d2 k))) keys)
+  end.
+Definition dbg01c_case (c : case01) := debug01c (k_proto c) (k_two c) (k_keys c) (k_steps c) empty_store 0.
